@@ -67,11 +67,13 @@ class BaseTcpTunnelHandler(BaseTcpServerHandler[TcpClientConnection]):
         # Get default client events
         ev: SelectableEvents = await super().get_events()
         # Read from server if we are connected
-        if self.upstream and self.upstream._conn is not None:
+        if self.upstream and self.upstream._conn is not None and \
+                not self.upstream.closed:
             ev[self.upstream.connection.fileno()] = selectors.EVENT_READ
         # If there is pending buffer for server
         # also register for EVENT_WRITE events
-        if self.upstream and self.upstream.has_buffer():
+        if self.upstream and not self.upstream.closed and \
+                self.upstream.has_buffer():
             if self.upstream.connection.fileno() in ev:
                 ev[self.upstream.connection.fileno()] |= selectors.EVENT_WRITE
             else:
@@ -88,15 +90,23 @@ class BaseTcpTunnelHandler(BaseTcpServerHandler[TcpClientConnection]):
         if do_shutdown:
             return do_shutdown
         # Handle server events
-        if self.upstream and self.upstream.connection.fileno() in readables:
+        if self.upstream and not self.upstream.closed and \
+                self.upstream.connection.fileno() in readables:
             data = self.upstream.recv(self.flags.server_recvbuf_size)
             if data is None:
                 # Server closed connection
                 logger.debug('Connection closed by server')
+                if self.work.has_buffer():
+                    # Deliver to the client what the server sent
+                    # before it closed, then shutdown.
+                    self.upstream.close()
+                    self.must_flush_before_shutdown = True
+                    return False
                 return True
             # tunnel data to client
             self.work.queue(data)
-        if self.upstream and self.upstream.connection.fileno() in writables:
+        if self.upstream and not self.upstream.closed and \
+                self.upstream.connection.fileno() in writables:
             self.upstream.flush(self.flags.max_sendbuf_size)
         return False
 
